@@ -86,6 +86,36 @@ def run(ctx):
         c["params"] = dict(c["params"], force_divide=True, max_divide=rng.choice([1, 2]))
         c["substep"] = True
         cases.append(c)
+    # a small Newton budget: a step that does not converge within it must be cut back or refused, never returned as it is
+    for i in range(ctx.budget(2, 6)):
+        c = copy.deepcopy(inel[(i * 5 + 1) % len(inel)])
+        c["params"] = dict(c["params"], miter=rng.choice([2, 3]))
+        cases.append(c)
+    # the shape of a long analysis: a large accumulated deformation, then a small further increment, with the solver's own
+    # tolerances
+    for i in range(ctx.budget(2, 6)):
+        c = copy.deepcopy(inel[(i * 3 + 2) % len(inel)])
+        c["params"] = {}
+        c["loose"] = True           # converged to the solver's own tolerances only: no exact-arithmetic equilibrium certificate
+        c["temps"][2] = list(c["temps"][1])
+        c["pressure"][2] = c["pressure"][1]
+        c["dtop"][2] = c["dtop"][1] * (1.0 + rng.choice([0.0001, 0.001, 0.004]))
+        c["times"][2] = c["times"][1] + 10.0
+        cases.append(c)
+    # ... and the same shape on a short stubby tube pulled to 2 % before the small increment (uniform temperature)
+    for dimd in (1, 2):
+        c = copy.deepcopy(inel[0])
+        c.update(r=5.0, t=0.5, h=2.5, nr=5, nt=8, nz=3, dim=dimd, T0=300.0)
+        c["material"] = {"kind": "shipped", "name": "316H", "variant": "base", "alpha_kind": "shipped"}
+        nn = {1: 5, 2: 40}[dimd]
+        c["times"] = [0.0, 1.0, 2.0]
+        c["temps"] = [[300.0] * nn, [850.0] * nn, [850.0] * nn]
+        c["pressure"] = [0.0, 10.0, 10.0]
+        c["dtop"] = [0.0, 0.05, 0.0502]
+        c["params"] = {}
+        c["loose"] = True
+        c.pop("zslice", None); c.pop("aslice", None)
+        cases.append(c)
     for c in cases:
         eps = 1.0e-5 * c["h"]
         c["eps"] = eps
@@ -163,7 +193,7 @@ def run(ctx):
     H1D = "From Coq Require Import QArith List.\nFrom SV Require Import model.FE1D.\nImport ListNotations.\nOpen Scope Q_scope."
     eq_terms, eq_owner = [], []
     for i, (c, r) in enumerate(zip(cases, results)):
-        if c["dim"] != 1 or r.get("outcome") != "ok" or "quadrature" not in r:
+        if c["dim"] != 1 or r.get("outcome") != "ok" or "quadrature" not in r or c.get("loose"):
             continue
         rs = [x[0] for x in arr(r["mesh"]["p"])]
         xis, wts = np.ravel(arr(r["quadrature"]["points"])), np.ravel(arr(r["quadrature"]["weights"]))
@@ -191,7 +221,7 @@ def run(ctx):
     q2 = lambda v: q_lit(qfrac(v))
     t2, o2 = [], []
     for i, (c, r) in enumerate(zip(cases, results)):
-        if c["dim"] != 2 or r.get("outcome") != "ok" or "quadrature" not in r or "mesh" not in r:
+        if c["dim"] != 2 or r.get("outcome") != "ok" or "quadrature" not in r or "mesh" not in r or c.get("loose"):
             continue
         P, conn = arr(r["mesh"]["p"]), r["mesh"]["t"]
         Xq, Wq = arr(r["quadrature"]["points"]), np.ravel(arr(r["quadrature"]["weights"]))
